@@ -32,6 +32,9 @@ import PercevalModel.Lemmas.C16Heap
 import PercevalModel.Lemmas.C16Rpc
 import PercevalModel.Lemmas.C16Add
 import PercevalModel.Lemmas.C16PS
+import PercevalModel.Lemmas.C16Route
+import PercevalModel.Lemmas.C16Relabel
+import PercevalModel.Lemmas.C16Jobs
 
 namespace PM.C16
 open PM.SM
@@ -2036,6 +2039,317 @@ example :
     PSel.evalTop (PSel.convertPost p (some x)) [1, 0, 1, 1, 0] = true ∧ PSel.eval x [1, 1, 0, 0, 1] = true := by
   decide
 
+/-! ## wave 6: the routing values are component inputs; what `relabelOf` is; one end-to-end statement -/
+
+/-- **mapped_add_values_are_component_inputs.**  For every mapping `add(mapping, circuit)` has accepted (any form:
+offset, list, dictionary with int keys or port names; no hypothesis on the component's size): every value `v` of the
+resolved mapping is an INPUT of the component, `v < c.m`, and the values are exactly `0 … c.m - 1`, each once.  The
+code never checks this directly: it follows from "one entry per component mode, distinct values, and the completed
+vector is accepted by `PERM`" — the modes of the span the user did not name get the values `max + 1, max + 2, …`, so
+a value `≥ c.m` would leave a hole below it that nothing fills. -/
+theorem mapped_add_values_are_component_inputs (aw : AWorld) (e : Exp) (mp : Mapping) (c : UC) (nm : NMap)
+    (h : resolveAdd aw e mp c = .ok nm) :
+    (∀ k v, (k, v) ∈ nm → v < c.m) ∧ (nm.map (·.2)).Perm (List.range c.m) :=
+  ⟨fun k v hkv => resolved_value_lt aw e c nm (resolveAdd_resolved aw e mp c nm h) k v hkv,
+   resolved_values_perm aw e c nm (resolveAdd_resolved aw e mp c nm h)⟩
+
+/-- **mapped_add_routes_into_the_component.**  … so the routing sends processor mode `k` to a position INSIDE the
+block `min … min + c.m - 1` the component is put on (`mapped_add_sends_each_key_to_its_input` only said "position
+`min + v`"), and every mode of the span the user did not name to a position of the span BEHIND that block. -/
+theorem mapped_add_routes_into_the_component (aw : AWorld) (e : Exp) (mp : Mapping) (c : UC) (nm : NMap)
+    (h : resolveAdd aw e mp c = .ok nm) (hm : c.m ≠ 0) :
+    (∀ k v, (k, v) ∈ nm → ∃ (hk : k < e.size) (hv : minL (nm.map (·.1)) + v < e.size),
+      routeFn e.size nm ⟨k, hk⟩ = ⟨minL (nm.map (·.1)) + v, hv⟩ ∧ v < c.m ∧ minL (nm.map (·.1)) + c.m ≤ e.size) ∧
+    (∀ i, i < spanLen nm → minL (nm.map (·.1)) + i ∉ nm.map (·.1) →
+      c.m ≤ spanVal nm i ∧ spanVal nm i < spanLen nm) := by
+  have hr := resolveAdd_resolved aw e mp c nm h
+  refine ⟨fun k v hkv => ?_, fun i hi hni => ⟨unnamed_goes_behind aw e c nm hr i hni, permVect_lt nm hr.perm i hi⟩⟩
+  obtain ⟨hk, hv, hroute⟩ := route_key aw e c nm hr hm k v hkv
+  exact ⟨hk, hv, hroute, resolved_value_lt aw e c nm hr k v hkv, (span_fits aw e c nm hr hm).2⟩
+
+/-- non-vacuity (the mapping of `spanWitness`'s example): keys 0 and 3 get the inputs 0 and 1 of a 2-mode component -/
+example : resolveAdd spanWitness ⟨4, 4, [(1, 1)], none, none, none, none, [], ⟨0, []⟩, []⟩ (.list [0, 3])
+    ⟨2, [(0, ⟨7, 2⟩)], 1, []⟩ = .ok [(0, 0), (3, 1)] := by decide
+
+/-- **relabelling_is_moi_then_heralds.**  What the mode mapping of the conversion IS, as facts about the list and
+not as its definition: for every well-formed local processor its first `p.m` entries are exactly the non-herald
+modes, in increasing order; the entries behind them are the herald modes in insertion order; and these three facts
+DETERMINE the list (any list with them is `relabelOf p`). -/
+theorem relabelling_is_moi_then_heralds (p : Exp) (h : p.WF) :
+    ((relabelOf p).take p.m).Pairwise (· < ·) ∧
+    (∀ x, x ∈ (relabelOf p).take p.m ↔ x < p.size ∧ x ∉ heraldModes p) ∧
+    (relabelOf p).drop p.m = heraldModes p ∧
+    ∀ σ : List Nat, (σ.take p.m).Pairwise (· < ·) → (∀ x, x ∈ σ.take p.m ↔ x < p.size ∧ x ∉ heraldModes p) →
+      σ.drop p.m = heraldModes p → σ = relabelOf p := by
+  refine ⟨?_, ?_, relabelOf_drop p h, fun σ h1 h2 h3 => relabelOf_unique p σ h1 h2 h3⟩
+  · rw [relabelOf_take p h]; exact moiModes_sorted p
+  · intro x; rw [relabelOf_take p h]; exact mem_moiModes p x
+
+/-- **converted_heralds_follow_the_relabelling.**  For both variants of the conversion and every well-formed local
+processor: the heralds of the converted processor (the ones every payload carries) are the local heralds READ THROUGH
+THE SAME MAPPING as the circuit (`converted_matrix_is_local_matrix_relabelled`) and the post-selection
+(`converted_postselect_is_user_postselect`): a remote herald `(j, v)` sits on a remote mode that carries a local
+herald mode expecting `v`, and every local herald is found again this way. -/
+theorem converted_heralds_follow_the_relabelling (fixed : Bool) (p e : Exp) (hp : p.WF)
+    (he : fromLocal fixed p = .ok e) :
+    (∀ j v, (j, v) ∈ e.heralds → ∃ l, (relabelOf p)[j]? = some l ∧ (l, v) ∈ p.heralds) ∧
+    (∀ l v, (l, v) ∈ p.heralds → ∃ j, (j, v) ∈ e.heralds ∧ (relabelOf p)[j]? = some l) :=
+  ⟨converted_herald_reads_local fixed p e hp he, local_herald_is_converted fixed p e hp he⟩
+
+example : heraldInside.WF ∧ (fromLocal true heraldInside).map (·.heralds) = .ok [(2, 1)] ∧
+    (relabelOf heraldInside)[2]? = some 1 := by decide
+
+/-- **converted_input_follows_the_relabelling** (repaired code).  For every well-formed local processor with an
+input state `s`: the input the converted processor stores — the one transmitted — carries on its modes of interest
+exactly what the local input carries on the modes `relabelOf p` names (the same mapping as the circuit, the
+post-selection and the heralds), and on each of its herald modes the expected value of that herald. -/
+theorem converted_input_follows_the_relabelling (p e : Exp) (hp : p.WF) (s : List Nat) (hin : p.input = some s)
+    (he : fromLocal true p = .ok e) :
+    ∃ t, e.input = some t ∧ t.length = p.size ∧
+      t.take p.m = (PSel.relabelState (relabelOf p) s).take p.m ∧
+      ∀ k v, (k, v) ∈ e.heralds → t[k]? = some v := by
+  have hlen : s.length = p.size := by
+    have := hp.inlen; simp only [inputLenOk, hin] at this; simpa using this
+  obtain ⟨rp, hrp, -, hm, hsize, -, hmodes, -, -, -, -, -, -, hinp⟩ := from_local_preserves p hp
+  rw [he] at hrp; cases hrp
+  obtain ⟨t, ht, htl, hrm, hher⟩ := hinp s hin
+  refine ⟨t, ht, by rw [htl, hsize], ?_, hher⟩
+  rw [removeModes_eq_filter, removeModes_eq_filter, hmodes, htl, hsize, ← hp.count] at hrm
+  simp only [Nat.zero_add] at hrm
+  rw [filter_range_tail, map_getD_range t p.m (by rw [htl, hsize, ← hp.count]; omega)] at hrm
+  rw [hrm]
+  unfold PSel.relabelState
+  rw [← List.map_take, relabelOf_take p hp, hlen]
+  rfl
+
+
+example : { heraldInside with input := some [1, 1, 0] }.WF ∧
+    (fromLocal true { heraldInside with input := some [1, 1, 0] }).map (·.input) = .ok (some [1, 0, 1]) ∧
+    PSel.relabelState (relabelOf heraldInside) [1, 1, 0] = [1, 0, 1] := by decide
+
+section EndToEnd
+variable {R : Type} [CommRing R] [StarRing R]
+
+/-- **job_request_end_to_end.**  ONE statement from the user's calls to the bytes' content.  Take ANY history `ops`
+of calls of `astep` from the initial state (constructors, conversions with or without post-selection, mapped `add`s,
+setters, …), the processor `e` it leaves, a job `j` that `Sampler._create_job` makes from `e` at that moment, ANY
+later state `rw` of the HTTP machine that still holds this job under `idx`, and an `execute(idx, args, kw)` there
+that emits its POST (the call returns an id or `create_job` raises), whatever the transport does.  Then:
+* exactly one POST is added, to `<url>/api/job`, and its JSON document is the handler's platform name with the job's
+  name, the iterations the job captured and a payload `pl`;
+* decoding `pl` gives the configuration of `e` — command = the primitive chosen, circuit symbol and size, input
+  state, filter, post-selection symbol, heralds, noise — as it was when the job was created;
+* the component list the processor held then (what the circuit symbol serialises) denotes, for every `ρ`, the matrix
+  the user means (`ASpec.mat`: local matrix relabelled / given circuit, then every routing and component added);
+* and if `e` still has the post-selection and the heralds a conversion `from_local_processor(p)` delivered: the
+  post-selection symbol in `pl` denotes, whatever the user's objects denote, a predicate that accepts the relabelled
+  output state iff the user's accepts the local one, and every herald in `pl` sits on a remote mode carrying a local
+  herald mode with the same expected value.
+
+`hjob` (the state still holds the job as created) is a hypothesis here; `job_request_end_to_end_over_history` below
+discharges it for every history that follows the creation. -/
+theorem job_request_end_to_end (ρ : Env R) (pf : Platform) (thrOnly : Bool) (ops : List AOp) (e : Exp)
+    (he : (exec asstep (asinit pf thrOnly) ops).1.cw.w.exp = some e)
+    (smp : Sampler) (method : Method) (e' : Exp) (j : Job)
+    (hcreate : createJob (exec asstep (asinit pf thrOnly) ops).1.cw.w.pf e smp method = (e', .ok j))
+    (rw : RWorld) (idx : Nat) (its : List (Dict IV)) (hjob : rw.w.jobs[idx]? = some (j, its))
+    (args : List PV) (kw : Dict PV) (net : Net) (wire : Wire) (snt : Sent)
+    (hsent : (∃ id, (rstep rw (.execute idx args kw net, wire)).2 = .sent id snt) ∨
+      (∃ cls msg, (rstep rw (.execute idx args kw net, wire)).2 = .raised cls msg snt)) :
+    ∃ pl prim conv,
+      posts (rstep rw (.execute idx args kw net, wire)).1.http = posts rw.http ++ [⟨postReq rw.h snt, some wire⟩] ∧
+      (postReq rw.h snt).url = rw.h.url ++ apiJob ∧
+      (postReq rw.h snt).body = some ⟨rw.h.name, ⟨method.name, pl, its⟩⟩ ∧
+      primitive (exec asstep (asinit pf thrOnly) ops).1.cw.w.pf.commands method = some (prim, conv) ∧
+      decode pl = configOf e prim.name false false ∧
+      circMat ρ e.size (exec asstep (asinit pf thrOnly) ops).1.cw.comps =
+        (exec asstep (asinit pf thrOnly) ops).2.mat ρ e.size ∧
+      ∀ (fixed : Bool) (p e0 : Exp) (id : Nat), p.WF → p.post = some ⟨id, []⟩ → fromLocal fixed p = .ok e0 →
+        e.post = e0.post → e.heralds = e0.heralds →
+        (∃ y, (decode pl).post = some y ∧ ∀ (env : Nat → Option PSel.Expr) (s : List Nat), s.length = p.size →
+          PSel.evalTop (y.denote env) (PSel.relabelState (relabelOf p) s) = PSel.evalTop (env id) s) ∧
+        (∀ jm v, (jm, v) ∈ (decode pl).heralds → ∃ l, (relabelOf p)[jm]? = some l ∧ (l, v) ∈ p.heralds) := by
+  obtain ⟨idx', args', kw', net', j', its', pl, ho, hj', -, hc, hs, hbody⟩ :=
+    posted_body_is_the_jobs_request rw (.execute idx args kw net, wire) snt hsent
+  cases ho
+  rw [hjob] at hj'
+  cases hj'
+  obtain ⟨prim, conv, hprim, hdec, -, -, -, hname⟩ :=
+    job_sent_describes_processor _ e e' smp method j args kw pl hcreate hc
+  have hpost := one_post_per_execution rw (.execute idx args kw net, wire)
+  refine ⟨pl, prim, conv, ?_, create_job_url rw.h snt, by rw [hbody, hname], hprim, hdec,
+    payload_matrix_is_user_matrix_with_mappings ρ pf thrOnly ops e.size (by simp [World.size, he]), ?_⟩
+  · rw [hpost.2.1, (hpost.2.2.2 snt hsent).1]
+  · intro fixed p e0 id hp hpp he0 hpe hhe
+    have hdp : (decode pl).post = e.post := by rw [hdec]; rfl
+    have hdh : (decode pl).heralds = e.heralds := by rw [hdec]; rfl
+    refine ⟨?_, ?_⟩
+    · obtain ⟨y, hy, -⟩ := converted_symbol_denotes_user_predicate fixed p e0 hp id hpp he0 (fun _ => none)
+        (List.replicate p.size 0) List.length_replicate
+      exact ⟨y, by rw [hdp, hpe, hy], fun env s hs' => by
+        obtain ⟨y', hy', hev⟩ := converted_symbol_denotes_user_predicate fixed p e0 hp id hpp he0 env s hs'
+        rw [hy] at hy'; cases hy'; exact hev⟩
+    · intro jm v hjv
+      rw [hdh, hhe] at hjv
+      exact converted_herald_reads_local fixed p e0 hp he0 jm v hjv
+
+/-- **job_request_end_to_end_over_history.**  The same with NO hypothesis on the later state: any history `ops` of
+`astep` from the initial state, then `Sampler._create_job(method)` succeeds on the processor `e` and the sampler `smp`
+of that moment, then ANY history `later` of the HTTP machine (any calls — setters, new circuits, new processors, other
+jobs and their executions — under any behaviour of the transport, from any handler and any earlier traffic), then
+`execute` of THAT job emits its POST: the document posted is the platform name, the job's name, the iterations the
+sampler had at creation and a payload that decodes to the configuration of `e`; the components `e` had denote the
+user's matrix; and the post-selection / the heralds of a conversion are the user's read through `relabelOf`. -/
+theorem job_request_end_to_end_over_history (ρ : Env R) (pf : Platform) (thrOnly : Bool) (ops : List AOp) (e : Exp)
+    (he : (exec asstep (asinit pf thrOnly) ops).1.cw.w.exp = some e)
+    (smp : Sampler) (hsmp : (exec asstep (asinit pf thrOnly) ops).1.cw.w.sampler = some smp)
+    (method : Method) (e' : Exp) (j : Job)
+    (hcreate : createJob (exec asstep (asinit pf thrOnly) ops).1.cw.w.pf e smp method = (e', .ok j))
+    (hd : Handler) (http0 : List Exchange) (later : List ROp)
+    (args : List PV) (kw : Dict PV) (net : Net) (wire : Wire) (snt : Sent)
+    (hsent :
+      let rw := exec rstep ⟨(step (exec asstep (asinit pf thrOnly) ops).1.cw.w (.createJob method)).1, hd, http0⟩ later
+      let o : ROp := (.execute (exec asstep (asinit pf thrOnly) ops).1.cw.w.jobs.length args kw net, wire)
+      (∃ id, (rstep rw o).2 = .sent id snt) ∨ (∃ cls msg, (rstep rw o).2 = .raised cls msg snt)) :
+    let rw := exec rstep ⟨(step (exec asstep (asinit pf thrOnly) ops).1.cw.w (.createJob method)).1, hd, http0⟩ later
+    let o : ROp := (.execute (exec asstep (asinit pf thrOnly) ops).1.cw.w.jobs.length args kw net, wire)
+    ∃ pl prim conv,
+      posts (rstep rw o).1.http = posts rw.http ++ [⟨postReq hd snt, some wire⟩] ∧
+      (postReq hd snt).url = hd.url ++ apiJob ∧
+      (postReq hd snt).body = some ⟨hd.name, ⟨method.name, pl, smp.iterator⟩⟩ ∧
+      primitive (exec asstep (asinit pf thrOnly) ops).1.cw.w.pf.commands method = some (prim, conv) ∧
+      decode pl = configOf e prim.name false false ∧
+      circMat ρ e.size (exec asstep (asinit pf thrOnly) ops).1.cw.comps =
+        (exec asstep (asinit pf thrOnly) ops).2.mat ρ e.size ∧
+      ∀ (fixed : Bool) (p e0 : Exp) (id : Nat), p.WF → p.post = some ⟨id, []⟩ → fromLocal fixed p = .ok e0 →
+        e.post = e0.post → e.heralds = e0.heralds →
+        (∃ y, (decode pl).post = some y ∧ ∀ (env : Nat → Option PSel.Expr) (s : List Nat), s.length = p.size →
+          PSel.evalTop (y.denote env) (PSel.relabelState (relabelOf p) s) = PSel.evalTop (env id) s) ∧
+        (∀ jm v, (jm, v) ∈ (decode pl).heralds → ∃ l, (relabelOf p)[jm]? = some l ∧ (l, v) ∈ p.heralds) := by
+  intro rw o
+  have hh : rw.h = hd := (rpc_refines_session _ later).2
+  have hheld := rexec_holdsJob _ j smp.iterator
+    ⟨(step (exec asstep (asinit pf thrOnly) ops).1.cw.w (.createJob method)).1, hd, http0⟩ later
+    (step_createJob_appends _ e e' smp method j he hsmp hcreate)
+  have hjob : rw.w.jobs[(exec asstep (asinit pf thrOnly) ops).1.cw.w.jobs.length]? = some (j, smp.iterator) := by
+    rcases hheld with h | h
+    · exact h
+    · exfalso
+      obtain ⟨idx', args', kw', net', j', its', pl, ho, hj', hf, -⟩ := posted_body_is_the_jobs_request rw o snt hsent
+      cases ho
+      rw [show rw.w.jobs[(exec asstep (asinit pf thrOnly) ops).1.cw.w.jobs.length]? = _ from h] at hj'
+      cases hj'
+      cases hf
+  have key := job_request_end_to_end ρ pf thrOnly ops e he smp method e' j hcreate rw _ smp.iterator hjob args kw net
+    wire snt hsent
+  rw [hh] at key
+  exact key
+
+/-- **converted_job_end_to_end.**  The conversion clause with NOTHING assumed about the processor.  Any history
+`before` of `astep`, then `RemoteProcessor.from_local_processor(p)` succeeds for a local processor `p` with the
+post-selection object `id`, then any number of calls `mid` of the session machine that neither build a new processor
+nor add a herald nor set a post-selection (input, filter, noise, parameters, circuit replaced / retuned / component
+added, payloads, samplers, iterations, other jobs and their executions), then `Sampler._create_job(method)` succeeds,
+then ANY later history of the HTTP machine, then `execute` of that job emits its POST.  Then the document posted is
+as in `job_request_end_to_end_over_history` (platform name, method's name, the sampler's iterations, a payload that
+decodes to the configuration of the processor at creation, whose components denote the user's matrix), and
+* the post-selection in the payload denotes, whatever the user's objects denote, a predicate that accepts the
+  relabelled output state iff the user's post-selection accepts the local one;
+* the heralds in the payload are exactly the local heralds read through `relabelOf p`, in both directions. -/
+theorem converted_job_end_to_end (ρ : Env R) (pf : Platform) (thrOnly : Bool) (before : List AOp)
+    (p : Exp) (pc : List Comp) (conds : List (List Nat)) (id : Nat) (hpid : p.post = some ⟨id, []⟩)
+    (hconv : (astep (exec asstep (asinit pf thrOnly) before).1 (.convertPS p pc conds)).2 = .done)
+    (mid : List Op) (hmid : ∀ op ∈ mid, op.touchesPH = false)
+    (e : Exp) (smp : Sampler) (method : Method) (e' : Exp) (j : Job)
+    (he : (exec asstep (asinit pf thrOnly)
+      (before ++ .convertPS p pc conds :: mid.map fun op => AOp.base (.plain op))).1.cw.w.exp = some e)
+    (hsmp : (exec asstep (asinit pf thrOnly)
+      (before ++ .convertPS p pc conds :: mid.map fun op => AOp.base (.plain op))).1.cw.w.sampler = some smp)
+    (hcreate : createJob (exec asstep (asinit pf thrOnly)
+      (before ++ .convertPS p pc conds :: mid.map fun op => AOp.base (.plain op))).1.cw.w.pf e smp method = (e', .ok j))
+    (hd : Handler) (http0 : List Exchange) (later : List ROp)
+    (args : List PV) (kw : Dict PV) (net : Net) (wire : Wire) (snt : Sent)
+    (hsent :
+      let st := exec asstep (asinit pf thrOnly) (before ++ .convertPS p pc conds :: mid.map fun op => AOp.base (.plain op))
+      let rw := exec rstep ⟨(step st.1.cw.w (.createJob method)).1, hd, http0⟩ later
+      let o : ROp := (.execute st.1.cw.w.jobs.length args kw net, wire)
+      (∃ id, (rstep rw o).2 = .sent id snt) ∨ (∃ cls msg, (rstep rw o).2 = .raised cls msg snt)) :
+    let st := exec asstep (asinit pf thrOnly) (before ++ .convertPS p pc conds :: mid.map fun op => AOp.base (.plain op))
+    let rw := exec rstep ⟨(step st.1.cw.w (.createJob method)).1, hd, http0⟩ later
+    let o : ROp := (.execute st.1.cw.w.jobs.length args kw net, wire)
+    p.WF ∧ ∃ pl prim conv,
+      posts (rstep rw o).1.http = posts rw.http ++ [⟨postReq hd snt, some wire⟩] ∧
+      (postReq hd snt).url = hd.url ++ apiJob ∧
+      (postReq hd snt).body = some ⟨hd.name, ⟨method.name, pl, smp.iterator⟩⟩ ∧
+      primitive st.1.cw.w.pf.commands method = some (prim, conv) ∧
+      decode pl = configOf e prim.name false false ∧
+      circMat ρ e.size st.1.cw.comps = st.2.mat ρ e.size ∧
+      (∃ y, (decode pl).post = some y ∧ ∀ (env : Nat → Option PSel.Expr) (s : List Nat), s.length = p.size →
+        PSel.evalTop (y.denote env) (PSel.relabelState (relabelOf p) s) = PSel.evalTop (env id) s) ∧
+      (∀ jm v, (jm, v) ∈ (decode pl).heralds → ∃ l, (relabelOf p)[jm]? = some l ∧ (l, v) ∈ p.heralds) ∧
+      (∀ l v, (l, v) ∈ p.heralds → ∃ jm, (jm, v) ∈ (decode pl).heralds ∧ (relabelOf p)[jm]? = some l) := by
+  intro st rw o
+  obtain ⟨hwf, e0, hfl, hexp0⟩ := astep_convertPS_done _ p pc conds hconv
+  -- the processor at creation has the post-selection and the heralds the conversion delivered
+  have hph : st.1.cw.w.ph = some (e0.post, e0.heralds) := by
+    show (exec asstep (asinit pf thrOnly) _).1.cw.w.ph = _
+    rw [asexec_fst, exec_append, exec_cons, aexec_plain_ph _ mid hmid, ← asexec_fst]
+    simp only [World.ph, hexp0, Option.map_some]
+  have hph' : e.post = e0.post ∧ e.heralds = e0.heralds := by
+    have : st.1.cw.w.ph = some (e.post, e.heralds) := by simp only [World.ph, st, he, Option.map_some]
+    rw [this] at hph
+    simp only [Option.some.injEq, Prod.mk.injEq] at hph
+    exact hph
+  obtain ⟨pl, prim, conv, h1, h2, h3, h4, h5, h6, h7⟩ :=
+    job_request_end_to_end_over_history ρ pf thrOnly _ e he smp hsmp method e' j hcreate hd http0 later args kw net
+      wire snt hsent
+  obtain ⟨h8, h9⟩ := h7 true p e0 id hwf hpid hfl hph'.1 hph'.2
+  refine ⟨hwf, pl, prim, conv, h1, h2, h3, h4, h5, h6, h8, h9, ?_⟩
+  intro l v hlv
+  obtain ⟨jm, hjm, hrl⟩ := local_herald_is_converted true p e0 hwf hfl l v hlv
+  refine ⟨jm, ?_, hrl⟩
+  have hdh : (decode pl).heralds = e.heralds := by rw [h5]; rfl
+  rw [hdh, hph'.2]
+  exact hjm
+
+end EndToEnd
+
+/-- the local processor of the witness: a herald inside (mode 1 of 3) and a post-selection (object 5) -/
+def e2eLocal : Exp := { heraldInside with post := some ⟨5, []⟩ }
+
+/-- conversion, input, a sampler -/
+def e2eOps : List AOp :=
+  [.convertPS e2eLocal [.leaf 0 ⟨0, 3⟩] [[0, 2]], .base (.plain (.withInput [1, 0])),
+   .base (.plain (.newSampler (.int 100)))]
+
+/-- non-vacuity of both end-to-end statements (no later history; a `200` answer with a job id): the processor, the
+sampler, the job, the POST, and the conversion `e` still has the post-selection and the herald of -/
+example :
+    ∃ e smp e' j id snt, (exec asstep (asinit ⟨none, none, none, none, ["probs"]⟩ false) e2eOps).1.cw.w.exp = some e ∧
+      (exec asstep (asinit ⟨none, none, none, none, ["probs"]⟩ false) e2eOps).1.cw.w.sampler = some smp ∧
+      createJob (exec asstep (asinit ⟨none, none, none, none, ["probs"]⟩ false) e2eOps).1.cw.w.pf e smp .probs =
+        (e', .ok j) ∧
+      (exec asstep (asinit ⟨none, none, none, none, ["probs"]⟩ false) e2eOps).1.cw.w.jobs.length = 0 ∧
+      (step (exec asstep (asinit ⟨none, none, none, none, ["probs"]⟩ false) e2eOps).1.cw.w
+        (.createJob .probs)).1.jobs[0]? = some (j, smp.iterator) ∧
+      (rstep (exec rstep ⟨(step (exec asstep (asinit ⟨none, none, none, none, ["probs"]⟩ false) e2eOps).1.cw.w
+          (.createJob .probs)).1, rpcWitnessHandler, []⟩ [])
+        (.execute 0 [] [] .ok, .answer 200 (.obj (some ['j']) none))).2 = .sent id snt ∧
+      e2eLocal.WF ∧ e2eLocal.post = some ⟨5, []⟩ ∧
+      ∃ e0, fromLocal true e2eLocal = .ok e0 ∧ e.post = e0.post ∧ e.heralds = e0.heralds ∧ e.heralds = [(2, 1)] :=
+  ⟨_, ⟨100, []⟩, _, _, _, _, rfl, rfl, rfl, rfl, rfl, rfl, by decide, rfl, _, rfl, rfl, rfl, rfl⟩
+
+
+/-- non-vacuity of `converted_job_end_to_end`: `e2eOps` is `[] ++ conversion :: [with_input, Sampler]`, the conversion
+succeeds and the two calls after it keep post-selection and heralds (the other hypotheses: the example above) -/
+example :
+    e2eOps = [] ++ .convertPS e2eLocal [.leaf 0 ⟨0, 3⟩] [[0, 2]] ::
+      [Op.withInput [1, 0], Op.newSampler (.int 100)].map (fun op => AOp.base (.plain op)) ∧
+    (astep (exec asstep (asinit ⟨none, none, none, none, ["probs"]⟩ false) []).1
+      (.convertPS e2eLocal [.leaf 0 ⟨0, 3⟩] [[0, 2]])).2 = .done ∧
+    (∀ op ∈ [Op.withInput [1, 0], Op.newSampler (.int 100)], op.touchesPH = false) := by
+  refine ⟨rfl, by decide, by decide⟩
+
 /-! ## what is still NOT proved (validated by the correspondence only)
 
 * the matrix reading (`payload_matrix_is_user_matrix`) takes the OWN matrix of every elementary component from the
@@ -2049,10 +2363,25 @@ example :
   routing of a mapped `add` does to heralds / post-selection conditions on modes strictly inside the span is not
   judged (the code as it is).  The post-selection symbol now has a meaning (`Sym.denote`, extension 6): the tree the
   conversion leaves in the remote processor is proved to decide, on relabelled states, what the user's tree decides;
-  what stays assumed there: the mode mapping of the conversion (`relabelOf`, compared per sample with the circuit and
-  the heralds actually produced), the native `apply_permutation` / `shift_modes` / `merge` / evaluation (exqalibur;
+  what stays assumed there: that the CODE uses the mode mapping `relabelOf` (compared per sample with the circuit and
+  the heralds actually produced; inside the model the mapping is now pinned down — `relabelling_is_moi_then_heralds`:
+  increasing modes of interest then heralds in insertion order, and unique with these facts — and the heralds of the
+  converted processor are proved to follow it, `converted_heralds_follow_the_relabelling`), the native `apply_permutation` / `shift_modes` / `merge` / evaluation (exqalibur;
   compared per sample), and conditions reading a mode BEYOND the circuit (the model counts 0 photons there, the
   native does not: outside the domain).  "Deserialising yields the same objects" relies on the real decoders (C15).
+* wave 6: `v < c.m` for the values of an accepted mapping is now PROVED (`mapped_add_values_are_component_inputs`;
+  it was never a hypothesis of a theorem, only unsaid in "input `v` of the component");
+  `job_request_end_to_end_over_history` joins the HTTP document, the decoded configuration, the matrix reading and
+  the predicate / herald reading of a conversion in one statement.  In it the link "the circuit SYMBOL in the payload
+  stands for the serialisation of the component list the processor held at that moment" is the modelling convention
+  of `cstep` (symbol and components change together), not a theorem.  `converted_job_end_to_end` has no hypothesis
+  on the processor, but the calls between the conversion and the job are plain calls of the session machine
+  (`Op.touchesPH = false`); a mapped `add`, `add_port`, `set_parameters`, `thresholded_output` in between (which keep
+  post-selection and heralds too) are covered only by `job_request_end_to_end_over_history`, where "still has the
+  post-selection and the heralds of the conversion" is a hypothesis.  A conversion WITHOUT post-selection
+  (`.base (.convert …)`) is covered for its heralds by `converted_heralds_follow_the_relabelling` only.  The input
+  state of a converted processor follows the same mapping (`converted_input_follows_the_relabelling`) but is not a
+  clause of the end-to-end statements.
 * the HTTP layer (`Model/C16Rpc.lean`) stops at the request `requests` is asked to send: redirects, environment
   proxies / netrc, TLS, and what the platform does with the document are outside; `execute_sync` / `__call__` are
   modelled up to the creation request (the status / result GETs that follow are not in the model).
